@@ -698,6 +698,10 @@ class FnContract:
         # body_ensures, which cannot be evaluated on a concrete run
         self.native_ensures = [(k[len('native_ensures_'):], v[0], _plain(v[1])) for k, v in d.items()
                                if k.startswith('native_ensures_')]
+        # native_excensures_<name>: the same for an exceptional postcondition (the predicate may
+        # take `exc_value`, the exception instance)
+        self.native_exc_ensures = [(k[len('native_excensures_'):], v[0], _plain(v[1]))
+                                   for k, v in d.items() if k.startswith('native_excensures_')]
         self.raises = {}
         for exc, kind in d.get('raises', {}).items():
             cfn = d.get('raises_' + exc.__name__)
